@@ -280,7 +280,7 @@ Print Assumptions C14_never_router_refuted.
 
 (* "Routers are learned exactly" as a refinement: the router table abstracted to the map
    source address -> {MAC, flags, preference, hop limit, lifetimes, source LLA, MTU, prefixes, routes,
-   RDNSS, DNSSL} evolves under EVERY event as the abstract table that applies the independent RFC 4861
+   RDNSS, DNSSL}, together with the process-wide RA counter and the default router, evolves under EVERY event as the abstract table that applies the independent RFC 4861
    decoder to the processed advertisements: an update replaces (nothing accumulates), a zero router
    lifetime is recorded and the entry kept, a rejected or unprocessed advertisement changes nothing,
    no other event touches the table. *)
@@ -295,8 +295,40 @@ Print Assumptions C14_router_refinement_run.
 
 Example C14_router_refinement_nonvacuous :
   Forall ev_ok ex_refine_hist /\
-  exists a, tb_find (fst (spec_run (abs (init 3)) ex_refine_hist)) ex_src = Some a /\
+  exists a, tb_find (sp_table (spec_run (abs (init 3)) ex_refine_hist)) ex_src = Some a /\
     ab_life a = 0 /\ ab_mtu a = 0 /\ List.length (ab_prefixes a) = 1%nat /\ ab_rdnss a = [] /\
     ab_mac a = [170;187;204;221;238;255].
 Proof. exact refinement_nonvacuous. Qed.
 Print Assumptions C14_router_refinement_nonvacuous.
+
+(* ------------------------------------------------------------------ *)
+(* Round 7b.  The default router h.Router is part of the abstraction (C14_router_refinement): it is the most
+   recently CREATED entry; it does not follow a router lifetime of 0 nor a higher preference (Example), and
+   it only gates the attack: what a pass decides to send does not depend on which router is the default. *)
+Theorem C14_default_only_gates : forall st i order k k',
+  defrouter st = Some k ->
+  lookup (mkSt (hunt st) (loops st) (routers st) (Some k') (repeat_ st) (closed st)) i order =
+  (let '(s, o) := lookup st i order in
+   (mkSt (hunt s) (loops s) (routers s) (Some k') (repeat_ s) (closed s), o)).
+Proof. exact default_only_gates. Qed.
+Print Assumptions C14_default_only_gates.
+
+Example C14_default_is_last_created :
+  let evs := [RxRA ex_src ex_eth (ra_hdr 0 1800) true; Tick; Tick; Tick;
+              RxRA ex_src2 ex_eth (ra_hdr 0 1800) true; Tick; Tick; Tick;
+              RxRA ex_src2 ex_eth (ra_hdr 0 0) true; Tick; Tick; Tick;
+              RxRA ex_src ex_eth (ra_hdr 8 9000) true] in
+  sp_default (spec_run (abs (init 3)) evs) = Some ex_src2 /\
+  exists a, tb_find (sp_table (spec_run (abs (init 3)) evs)) ex_src2 = Some a /\ ab_life a = 0.
+Proof. exact default_is_last_created. Qed.
+Print Assumptions C14_default_is_last_created.
+
+(* The RA rate limiter `repeat` is a package-level variable: event Tick = another Handler6 of the process
+   receives an RA.  "Records ... exactly" quantifies over the advertisements PROCESSED (refinement above,
+   Tick included); that a handler's learning is independent of the other handlers of the process is false. *)
+Theorem C14_limiter_private_refuted : exists c p1 p2,
+  let own := [RxRA ex_src ex_eth p1 true; RxRA ex_src ex_eth p2 true] in
+  let shared := [RxRA ex_src ex_eth p1 true; Tick; Tick; Tick; RxRA ex_src ex_eth p2 true] in
+  sp_table (abs (snd (run c (init 3) own))) <> sp_table (abs (snd (run c (init 3) shared))).
+Proof. exact limiter_private_refuted. Qed.
+Print Assumptions C14_limiter_private_refuted.
